@@ -20,7 +20,9 @@ var cleanOutputs = []string{
 	"out", "out/", "./out", "sub", "sub/inner.txt", "data.txt", "nonexistent", "../other", "../..", "out/../..", "gen/deep",
 }
 
-var cleanGlobs = []string{"*.gen", "gen/*", "**/*.tmp"}
+// Output globs: three that match generated files, and two that also match the spokfile itself
+// (the project must survive those: found missing by a seeded change, see DESIGN.md 9.5).
+var cleanGlobs = []string{"*.gen", "gen/*", "**/*.tmp", "s*", "*"}
 
 // nativeSafeOutput reports whether replaying --clean natively with this output can only delete
 // inside the temporary sandbox: the real os.RemoveAll runs there. Absolute values and more than
@@ -312,6 +314,10 @@ func globMatch(pattern, rel string) bool {
 		return strings.HasPrefix(rel, "gen/") && !strings.Contains(rel[4:], "/") && len(rel) > 4
 	case "**/*.tmp":
 		return strings.HasSuffix(rel, ".tmp")
+	case "s*":
+		return !strings.Contains(rel, "/") && strings.HasPrefix(rel, "s")
+	case "*":
+		return !strings.Contains(rel, "/")
 	}
 	return false
 }
